@@ -151,13 +151,14 @@ fn run_case(name: &str, ntasks: usize, loop_ops: Vec<String>, progs: Vec<Vec<Str
             StepResult::Done => "done".into(),
             StepResult::Blocked => "blocked".into(),
             StepResult::Skip => "skip".into(),
+            StepResult::Panicked => "panic".into(),
         };
         writeln!(out, "step {} {} {}", t, label, snapshot(&shared)).unwrap();
     }
     for t in (1..=n).chain(std::iter::once(0)) {
         for _ in 0..100000 {
             match sched.step(t) {
-                StepResult::Done | StepResult::Skip => break,
+                StepResult::Done | StepResult::Skip | StepResult::Panicked => break,
                 _ => {}
             }
         }
